@@ -250,6 +250,56 @@ Lemma gs_numpy_resolution n target H0 :
 Proof. cbv zeta. unfold gs_numpy, gsn_epilogue; cbn [fst snd]. split; apply crop_clip. Qed.
 End GSNumpy.
 
+(* ================================================================== Gerchberg-Saxton 3-D (NumPy) *)
+Lemma fsum_at n f i j : fsum n f i j = csum n (fun d => f d i j).
+Proof. induction n as [|n IH]; [reflexivity|]. cbn [fsum csum]. unfold fadd. rewrite IH. reflexivity. Qed.
+
+Lemma csum_ext n f g : (forall d, (d < n)%nat -> f d = g d) -> csum n f = csum n g.
+Proof. induction n as [|n IH]; intros E; [reflexivity|]. cbn [csum]. rewrite IH, E by (intros; try apply E; lia). reflexivity. Qed.
+
+Lemma csum_unit_bound n f : (forall d, (d < n)%nat -> Cmod (f d) = 1) -> Cmod (csum n f) <= INR n.
+Proof.
+  induction n as [|n IH]; intros Hf.
+  - cbn [csum INR]. rewrite Cmod_0. lra.
+  - cbn [csum]. rewrite S_INR. eapply Rle_trans; [apply Cmod_triangle|].
+    rewrite (Hf n) by lia. assert (Cmod (csum n f) <= INR n) by (apply IH; intros; apply Hf; lia). lra.
+Qed.
+
+Section GS3D.
+Variables h w L : nat.
+Variables Pf Pb : nat -> fld -> fld.
+
+Lemma gs3d_resolution n targets H0 : clip h w (gs3d h w L Pf Pb n targets H0) = gs3d h w L Pf Pb n targets H0.
+Proof. unfold gs3d, gs3_epilogue. apply crop_clip. Qed.
+
+(* after at least one iteration every sample of the returned hologram is a sum of L unit phasors, one per plane *)
+Lemma gs3d_sum_of_phasors n targets H0 i j : (i < h)%nat -> (j < w)%nat ->
+  exists phi : nat -> R, gs3d h w L Pf Pb (S n) targets H0 i j = csum L (fun d => gcf 1 (phi d)).
+Proof.
+  intros Hi Hj. unfold gs3d, gs3_epilogue. cbn [iter]. set (H := iter n (gs3_body h w L Pf Pb targets) H0).
+  unfold gs3_body, cropf. rewrite slice_in by lia. rewrite fsum_at.
+  exists (fun d => arg_f (Pb d (gcf_f (paste (win0 h) (win0 h + h) (win0 w) (win0 w + w) (rabs_f (targets d)) (amp_f (Pf d H))) (arg_f (Pf d H)))) (win0 h + i)%nat (win0 w + j)%nat).
+  apply csum_ext. intros d _.
+  unfold gs3_layer, padf. rewrite inwin_true by lia. unfold cropf. rewrite slice_in by lia.
+  replace (win0 h + (win0 h + i - win0 h))%nat with (win0 h + i)%nat by lia.
+  replace (win0 w + (win0 w + j - win0 w))%nat with (win0 w + j)%nat by lia. reflexivity.
+Qed.
+
+(* hence it is finite: its modulus is at most the number of planes; with one plane it is phase-only *)
+Lemma gs3d_bounded n targets H0 i j : (i < h)%nat -> (j < w)%nat -> Cmod (gs3d h w L Pf Pb (S n) targets H0 i j) <= INR L.
+Proof.
+  intros Hi Hj. destruct (gs3d_sum_of_phasors n targets H0 i j Hi Hj) as [phi E]. rewrite E.
+  apply csum_unit_bound. intros d _. apply gcf_unit_Cmod.
+Qed.
+End GS3D.
+
+Lemma gs3d_single_plane_unit h w Pf Pb n targets H0 : phase_only h w (gs3d h w 1 Pf Pb (S n) targets H0).
+Proof.
+  intros i j Hi Hj. destruct (gs3d_sum_of_phasors h w 1 Pf Pb n targets H0 i j Hi Hj) as [phi E]. rewrite E.
+  cbn [csum]. replace (Cplus (RtoC 0) (gcf 1 (phi 0%nat))) with (gcf 1 (phi 0%nat)) by (unfold Cplus, RtoC, gcf; cbn [fst snd]; f_equal; ring).
+  apply gcf_unit.
+Qed.
+
 Lemma half_double h : ((2 * h) / 2 = h)%nat.
 Proof. rewrite Nat.mul_comm. apply Nat.div_mul. discriminate. Qed.
 
